@@ -12,6 +12,7 @@ import Pyunicorn.Lemmas.NsiCompConn
 import Pyunicorn.Lemmas.NsiCompFold
 import Pyunicorn.Lemmas.NsiBetwKernel
 import Pyunicorn.Lemmas.NsiWrapped
+import Pyunicorn.Lemmas.NsiBetwTargets
 import Pyunicorn.Lemmas.NsiWrappedArenas
 import Pyunicorn.Model.NsiMeasures
 /-!
@@ -387,6 +388,54 @@ example :
         ((List.range 3).filter fun _ => true)) = [0, 3, 0] ∧
     (NetBetw.nsiBetweenness 4 (split pathGd 1 (1/4)).adj (split pathGd 1 (1/4)).w
         ((List.range 4).map fun _ => true) ((List.range 4).filter fun _ => true)) = [0, 3, 0, 3] := by
+  decide +kernel
+
+/-! ### round 5d: arbitrary duplicate-free target lists
+
+`nsi_betweenness_kernel_eq_def` fixes the targets to the increasing list of a node set.  The kernel
+loops over the list it is given; C04 proved that the kernel model does not depend on the order of
+that list (`Relabel.nsiBetweenness_targets_perm`, through C03's definition theorem).  With it the
+C02 statements hold for every duplicate-free target list in any order.  (A list with a repeated
+target counts that target twice — in the kernel and in the pair-dependency definition alike; the
+set-indexed `nsiBetw` cannot express it, and the public wrappers pass index lists of node sets.) -/
+
+/-- the kernel model with **any duplicate-free target list `L`, in any order**, computes the
+documented definition with target set `L` -/
+theorem nsi_betweenness_kernel_eq_def_targets (G : Gr) (hsym : ∀ x y, G.adj x y = G.adj y x)
+    (hw : ∀ k, k < G.n → 0 < G.w k) (S : Nat → Bool) (L : List Nat) (hnd : L.Nodup)
+    (hL : ∀ k ∈ L, k < G.n) (i : Nat) (hi : i < G.n) :
+    (NetBetw.nsiBetweenness G.n G.adj G.w ((List.range G.n).map S) L).getD i 0
+      = nsiBetw (withBfs G) (fun k => decide (k ∈ L)) S i :=
+  kernel_eq_nsiBetw_list G hsym hw S L hnd hL i hi
+
+/-- **node-splitting invariance of the kernel model for arbitrary duplicate-free target lists**:
+`L` on the network, `L'` on the split network, each in any order, `L'` containing a node iff `L`
+contains its collapse (so both twins or none) -/
+theorem nsi_betweenness_kernel_split_targets (G : Gr) (v : Nat) (p : Rat) (hv : v < G.n)
+    (hp0 : 0 < p) (hp1 : p < 1) (hw : ∀ k, k < G.n → 0 < G.w k) (hloop : ∀ i, G.adj i i = false)
+    (hsym : ∀ x y, G.adj x y = G.adj y x) (S : Nat → Bool) (L L' : List Nat) (hnd : L.Nodup)
+    (hL : ∀ k ∈ L, k < G.n) (hnd' : L'.Nodup) (hL' : ∀ k ∈ L', k < G.n + 1)
+    (hmem : ∀ k, k < G.n + 1 → (k ∈ L' ↔ collapse G.n v k ∈ L)) (a : Nat) (ha : a < G.n + 1) :
+    (NetBetw.nsiBetweenness (G.n + 1) (split G v p).adj (split G v p).w
+        ((List.range (G.n + 1)).map fun k => S (collapse G.n v k)) L').getD a 0
+      = (NetBetw.nsiBetweenness G.n G.adj G.w ((List.range G.n).map S) L).getD
+          (collapse G.n v a) 0 := by
+  rw [Relabel.nsiBetweenness_targets_perm (n := G.n + 1) (split G v p).adj
+      (split_adj_symm G v p hsym) (split G v p).w (split_weights_pos G v p hv hp0 hp1 hw) _
+      (split_targets_perm G.n v L L' hnd' hL' hmem) hL',
+    Relabel.nsiBetweenness_targets_perm (n := G.n) G.adj hsym G.w hw _
+      (nodup_perm_filter G.n L hnd hL) hL]
+  exact nsi_betweenness_kernel_split G v p hv hp0 hp1 hw hloop hsym S
+    (fun k => decide (k ∈ L)) a ha
+
+/-- non-vacuity: the weighted path 0–1–2 with the targets listed as `[2, 0, 1]`, its split at node 1
+with the targets listed as `[3, 1, 0, 2]`: same values as with the increasing lists -/
+example :
+    (NetBetw.nsiBetweenness 3 pathGd.adj pathGd.w ((List.range 3).map fun _ => true) [2, 0, 1])
+      = [0, 3, 0] ∧
+    (NetBetw.nsiBetweenness 4 (split pathGd 1 (1/4)).adj (split pathGd 1 (1/4)).w
+        ((List.range 4).map fun _ => true) [3, 1, 0, 2]) = [0, 3, 0, 3] ∧
+    (∀ k, k < 4 → (k ∈ [3, 1, 0, 2] ↔ collapse 3 1 k ∈ [2, 0, 1])) := by
   decide +kernel
 
 /-! ### round 4 (b): Newman-type random-walk betweenness, with the matrix inverse as an assumed
